@@ -152,13 +152,13 @@ theorem C19_forward_exact (dev : Dev) (msg : Req) (m : TReqs) (hsub : isSub msg 
   simp [process, hsub, hs, isPoll_of_isSub msg hsub]
 
 /-- What one target's forwarding consists of: nothing at all when the target has no connection
-    (the error is discarded — nobody is told); otherwise the subscription followed by exactly the
-    target's SubscribeResponses, relayed in order and unchanged. -/
+    (the error is discarded — nobody is told); otherwise the subscription followed by the target's
+    SubscribeResponses, relayed in order and unchanged (`C19_relay_all`). -/
 theorem C19_relay_identity (dev : Dev) (t : Str) (r : Req) (hp : (reqPrefix r).isSome = true) :
     forward dev (t, r) =
       match devLookup dev t with
       | none => []
-      | some msgs => .subscribed t r :: msgs.filterMap (relayOf t) := by
+      | some msgs => .subscribed t r :: relays t msgs := by
   unfold forward
   cases devLookup dev t with
   | none => rfl
@@ -166,6 +166,14 @@ theorem C19_relay_identity (dev : Dev) (t : Str) (r : Req) (hp : (reqPrefix r).i
     have : (reqPrefix r).isNone = false := by
       cases h : reqPrefix r <;> simp_all
     simp [this]
+
+/-- Updates are relayed as received: when a target sends only SubscribeResponses, the subscriber
+    gets every one of them, in order, with its content untouched. -/
+theorem C19_relay_all (t : Str) (ids : List Str) :
+    relays t (ids.map DevMsg.resp) = ids.map (Out.relayed t) := by
+  induction ids with
+  | nil => rfl
+  | cons i rest ih => simp [relays, ih]
 
 /-- A poll on a subscribed stream goes to exactly the connected targets subscribed on that stream,
     once each, and changes nothing. -/
@@ -312,7 +320,7 @@ example : (match split { body := .subscribe sampleList, top := sampleTop } with
 example : getTarget (some witnessT1) ≠ [] := by decide
 example : isSub { body := .subscribe sampleList, top := sampleTop } = true ∧ isPoll { body := .poll, top := [] } = true := by decide
 example : (run sampleDev {} [.msg { body := .subscribe sampleList, top := sampleTop }, .msg { body := .poll, top := [] },
-    .msg { body := .poll, top := [] }, .eof]).1.length = 2 + 2 + 2 + 2 := by decide
+    .msg { body := .poll, top := [] }, .eof]).1.length = 2 + 1 + 2 + 2 := by decide
 example : ∀ t ∈ ["t1".toList, "t2".toList], (devLookup sampleDev t).isSome = true := by decide
 
 end OnosVerif.Props.C19
